@@ -242,6 +242,26 @@ def check(run):
     if not ok:
         run.violation("R7", cp.where, "SceneGraph.copy fills the copy's transform memo from the original's without verifying it first: "
                                       "entries resolved before the last edge update are certified for the copy", key=key_of("C09-R7", "copy"))
+    # ------------------------------------------------------------------ R8 the forest owns its matrices
+    run.rule("R8", "the matrix stored on an edge is the forest's own array: kwargs_to_matrix never returns (a view of) one of its arguments and SceneGraph.update stores exactly its result")
+    from ..provenance import Prov
+    ktm = ix.func("trimesh.scene.transforms:kwargs_to_matrix")
+    sm = ef.summary(ktm, None)
+    aliased = sorted({f"{r.root}{'.' + '.'.join(r.path) if r.path else ''}" for r in sm.ret if getattr(r, "root", None) in ktm.params})
+    ok = not aliased
+    run.instance("R8", ktm.where, f"kwargs_to_matrix: return value may alias its parameters: {aliased or 'no (fresh array on every path)'}", ok)
+    if not ok:
+        run.violation("R8", ktm.where, f"kwargs_to_matrix can return (a view of) its argument {aliased}: the edge then shares the caller's array, and a later in-place edit by the "
+                                       f"caller changes the edge without resetting the forest hash - memoised and fresh lookups disagree",
+                      key=key_of("C09-R8", "kwargs_to_matrix", "alias"))
+    up = ix.func("trimesh.scene.transforms:SceneGraph.update")
+    pu = Prov(ix, up)
+    st_m = [(st, st.value) for st in ast.walk(up.node) if isinstance(st, ast.Assign) and ast.unparse(st.targets[0]) in ("attr['matrix']", 'attr["matrix"]')]
+    ok = len(st_m) == 1 and isinstance(st_m[0][1], ast.Call) and pu.callee(st_m[0][1].func) == "trimesh.scene.transforms.kwargs_to_matrix"
+    run.instance("R8", up.where, "SceneGraph.update stores kwargs_to_matrix(**kwargs) as the edge matrix", ok)
+    if not ok:
+        run.violation("R8", up.where, "SceneGraph.update no longer stores the result of kwargs_to_matrix as the edge matrix (the caller's own array may be stored)",
+                      key=key_of("C09-R8", "update", "store"))
     run.assume("exceptions between a write and a later reset are not modelled (a raising dict operation leaves the forest unchanged)")
     return {
         "explanation": "Effect analysis finds every function that stores into EnforcedForest.parents/edge_data/node_data directly, "
